@@ -6,7 +6,7 @@ import time
 
 import z3
 
-Z3_MS = int(os.environ.get("PYVC_Z3_MS", "8000"))
+Z3_MS = int(os.environ.get("PYVC_Z3_MS", "12000"))
 CVC5_MS = int(os.environ.get("PYVC_CVC5_MS", "6000"))
 CVC5 = "/usr/bin/cvc5"
 
